@@ -50,6 +50,7 @@ import (
 	"sync/atomic"
 	"time"
 
+	"reduction.dev/reduction/proto/snapshotpb"
 	"reduction.dev/reduction/util/verifhook"
 	"verif/harness/cluster"
 	"verif/harness/gate"
@@ -94,7 +95,35 @@ type world struct {
 
 var tuneOn atomic.Bool
 
-func main() { mbt.Main(replay) }
+const rootEnv = "VERIF_SAVEPOINT_TMP"
+
+// tmpRoot: $VERIF_SAVEPOINT_TMP (set by the parent process), else a fresh directory below /dev/shm or $VERIF_BUILD/tmp.
+func tmpRoot() string {
+	if r := os.Getenv(rootEnv); r != "" {
+		return r
+	}
+	base := ""
+	if st, err := os.Stat("/dev/shm"); err == nil && st.IsDir() {
+		base = "/dev/shm"
+	} else if b := os.Getenv("VERIF_BUILD"); b != "" {
+		base = filepath.Join(b, "tmp")
+		os.MkdirAll(base, 0o755)
+	}
+	r, err := os.MkdirTemp(base, "verif-sp-")
+	if err != nil {
+		r = os.TempDir()
+	}
+	os.Setenv(rootEnv, r)
+	return r
+}
+
+func main() {
+	if os.Getenv("MBT_CHILD") == "" && os.Getenv(rootEnv) == "" {
+		root := tmpRoot() // created here (children inherit the environment), removed here; a root given by the caller is the caller's
+		defer os.RemoveAll(root)
+	}
+	mbt.Main(replay)
+}
 
 func (w *world) violate(what string, exp, obs any) {
 	if w.failed {
@@ -115,8 +144,13 @@ func (w *world) makeSplits() {
 	w.total = w.in.CfgInt("MaxEv", 3)*w.burst + w.tail
 	per := (w.total + w.nSplits - 1) / w.nSplits
 	w.total = per * w.nSplits
+	body := w.in.CfgInt("MaxEv", 3) * w.burst
 	w.splits = cluster.MakeSplits(w.nSplits, per, func(s, idx int) string {
 		g := (idx-1)*w.nSplits + s
+		if g >= body { // the tail touches every key of every operator (read-back through the handler)
+			t := g - body
+			return cluster.KeyFor(w.KG, w.W, t%w.W, (t/w.W)%w.nKeys)
+		}
 		owner := (g / w.burst) % w.W
 		return cluster.KeyFor(w.KG, w.W, owner, g%w.nKeys)
 	})
@@ -157,7 +191,7 @@ func replay(bi int, beh []mbt.Step, in *mbt.Input, res *mbt.Result) {
 	w.burst = in.CfgInt("Burst", 1)
 	w.nSplits = in.CfgInt("Splits", 2)
 	w.nKeys = in.CfgInt("Keys", 3)
-	w.tail = in.CfgInt("Tail", 8)
+	w.tail = max(in.CfgInt("Tail", 8), w.W*w.nKeys)
 	if s := in.CfgInt("WaitS", 0); s > 0 {
 		wait = time.Duration(s) * time.Second
 	}
@@ -180,25 +214,15 @@ func replay(bi int, beh []mbt.Step, in *mbt.Input, res *mbt.Result) {
 	})
 	defer verifhook.Install(nil, nil)
 
-	base := os.Getenv("VERIF_BUILD")
-	if base != "" {
-		base = filepath.Join(base, "tmp")
-		os.MkdirAll(base, 0o755)
-	} else if st, err := os.Stat("/dev/shm"); err == nil && st.IsDir() {
-		base = "/dev/shm"
-	}
-	if in.CfgBool("Shm", true) {
-		if st, err := os.Stat("/dev/shm"); err == nil && st.IsDir() {
-			base = "/dev/shm"
-		}
-	}
-	dir, err := os.MkdirTemp(base, "verif-sp-")
+	// every behaviour gets its own directory under the root the parent process created; it is removed by
+	// the parent when all children have exited (background flushes / compactions of retired databases may
+	// still be writing when a behaviour ends, and would panic on a vanished directory)
+	dir, err := os.MkdirTemp(tmpRoot(), "b-")
 	if err != nil {
 		w.errorf("temp dir: %v", err)
 		return
 	}
 	w.dir = dir
-	defer os.RemoveAll(dir)
 
 	opt := cluster.Options{Workers: w.W, KeyGroups: w.KG, Splits: w.splits, Dir: dir, FullGiven: true,
 		Gates: []string{cluster.PJobOpAck, cluster.PJobSrAck, cluster.PStoreWrite, cluster.POpRetain, cluster.PStoreRead}}
@@ -1101,8 +1125,13 @@ func (w *world) stepRestore(st mbt.Step) {
 		w.violate(fmt.Sprintf("the job started from savepoint %d resumes the source at %v; checkpoint %d was cut at %v", id, got, id, wantCur), wantCur, got)
 		return
 	}
-	// N >= W: every new operator opens one handle: read the restored state back through a checkpoint at once
-	ckptOK := N >= w.W || w.in.CfgBool("CkptAfterShrink", false)
+	// N = W: every new operator opens exactly its predecessor's checkpoint: the restored state is also read
+	// back through a checkpoint of the new job, at once and at the end. With another worker count a
+	// checkpoint of the new job runs into rescaling issues that are not this property (C06/C09: a checkpoint
+	// opened from several handles, a WAL shared by two new operators deleted twice by the first retention
+	// round): there the state is read back through the reference handler only (CkptAfterRescale = true
+	// checkpoints all the same).
+	ckptOK := N == w.W || w.in.CfgBool("CkptAfterRescale", false)
 	if ckptOK {
 		if !w.tickAndCheck(c2, id+1, wantCur, "right after the restore") {
 			return
@@ -1191,12 +1220,42 @@ func (w *world) tickAndCheck(c *cluster.Cluster, id uint64, cursors map[int]int,
 		w.violate(fmt.Sprintf("the restored job's source positions %s are %v, want %v", when, stt.Cursors, cursors), cursors, stt.Cursors)
 		return false
 	}
-	if d := cluster.DiffStates(cluster.ExpectedAt(w.splits, cursors), stt.Keys); d != "" {
+	keys, err := ownedState(ck, c.Options().KeyGroups, c.Options().Workers)
+	if err != nil {
+		w.violate(fmt.Sprintf("the checkpoint the restored job takes %s cannot be read back: %v", when, err), nil, err.Error())
+		return false
+	}
+	if d := cluster.DiffStates(cluster.ExpectedAt(w.splits, cursors), keys); d != "" {
 		w.violate(fmt.Sprintf("the state of the job started from savepoint %d %s is not the state of checkpoint %d (+ the records since): %s", w.spID, when, w.spID, d), nil, d)
 		return false
 	}
 	c.WaitRetention(wait)
 	return true
+}
+
+// ownedState reads a job checkpoint back from the operators' DKV checkpoints, keeping of every operator
+// checkpoint only the keys that operator owns (after a rescale an operator's database still physically holds
+// entries of key groups it no longer owns; they are filtered by ownership when read).
+func ownedState(ck *snapshotpb.JobCheckpoint, keyGroups, workers int) (map[string]*cluster.KeyState, error) {
+	out := map[string]*cluster.KeyState{}
+	for _, oc := range ck.OperatorCheckpoints {
+		o := cluster.OpCheckpoint{Ckpt: oc.CheckpointId, Op: oc.OperatorId, URI: oc.DkvFileUri}
+		keys, err := cluster.ReadOperatorCheckpoint(o, keyGroups)
+		if err != nil {
+			return nil, err
+		}
+		idx := cluster.OpIndexOfID(oc.OperatorId)
+		for k, ks := range keys {
+			if cluster.OwnerOf(keyGroups, workers, k) != idx {
+				continue
+			}
+			if _, dup := out[k]; dup {
+				return nil, fmt.Errorf("key %s owned twice", k)
+			}
+			out[k] = ks
+		}
+	}
+	return out, nil
 }
 
 // checkStrays: acknowledgements / StartCheckpoint calls of a checkpoint the model does not know.
